@@ -478,9 +478,15 @@ def rule_translate(chk, fb, d):
                 flag_atoms |= {a for a in at if a[0] == "field" and a[1] == "tuple"}
                 # comparisons feeding this switch
                 if "p" in t["op"]:
+                    # the value being assigned: which arithmetic result does it come from?
+                    src_calls = {a for o_ in __import__("facts").rv_operands(rv) for a in fl.atoms(o_, stop_calls=STOP) if a[0] == "call"}
                     for dd in fl.defs.get(t["op"]["p"]["l"], []):
                         if dd[0] == "rv" and dd[3]["k"] == "bin" and dd[3]["op"] in ("Lt", "Le", "Gt", "Ge"):
-                            cmp_consts.append((dd[3]["op"], dd[3]["a"].get("i"), dd[3]["b"].get("i"), deps[x], t))
+                            var = dd[3]["a"] if "p" in dd[3]["a"] else dd[3]["b"]
+                            var_calls = {a for a in fl.atoms(var, stop_calls=STOP) if a[0] == "call"}
+                            # only comparisons of THIS shifted value count (not the other axis' range check)
+                            if var_calls & src_calls - {a for a in src_calls if STOP(a[1])}:
+                                cmp_consts.append((dd[3]["op"], dd[3]["a"].get("i"), dd[3]["b"].get("i"), deps[x], t))
             own = ("field", "tuple", own_flag) in flag_atoms
             crossed = ("field", "tuple", other_flag) in flag_atoms and not own
             chk.ob(
